@@ -208,6 +208,11 @@ def run(ctx):
         ctx.sample({k: ln[k] for k in ("kinds", "npts", "keys", "vcls", "rep", "fmts", "steps")})
     bad = ctx.tlc_validate_sharded("Trace_C15", "Trace.cfg", [{k: v for k, v in ln.items() if k != "note"} for ln in lines])
     by = {ln["oid"]: ln for ln in lines}
+    good = [{k: v for k, v in ln.items() if k != "note"} for ln in lines if ln["oid"] not in bad and len(ln["fmts"]) >= 2]
+    ctx.selftest("Trace_C15", "Trace.cfg", good, [
+        ("content", lambda l: dict(l, steps=[dict(l["steps"][0], same_content=False)] + l["steps"][1:])),
+        ("truncated", lambda l: dict(l, steps=l["steps"][:-1])),
+        ("load", lambda l: dict(l, steps=l["steps"][:-1] + [dict(l["steps"][-1], load="raise_IndexError")]))])
     for oid, clause in bad.items():
         ln = by[oid]
         key = f"synthetic:{'+'.join(ln['kinds'])}:n{ln['npts']}:k{len(ln['keys'])}:{ln['vcls']}:{ln['rep']}:{'>'.join(ln['fmts'])}:{clause}"
